@@ -260,8 +260,10 @@ class PTable(EngineBase):
                 return {"op": "parent", "h": rng.randrange(64)}
             if r < 0.93:
                 return {"op": "parents", "h": rng.randrange(64)}
-            if r < 0.97:
+            if r < 0.95:
                 return {"op": "ppid", "h": rng.randrange(64)}
+            if r < 0.98:
+                return {"op": "iter", "consume": None}
             return {"op": "is_running", "h": rng.randrange(64)}
         raise ValueError(prop)
 
@@ -346,7 +348,7 @@ class PTable(EngineBase):
               0, "yielded": [], "iters": [], "open_gens": [], "keys": set(),
               "probes": {}, "flagged": {}, "last_complete": None,
               "cleared": False, "all_yielded_ids": {}, "sample": [],
-              "obj_inc": {}, "pre_clear": {}, "pid_hist": {}}
+              "obj_inc": {}, "pre_clear": {}, "pid_hist": {}, "skipped": {}}
         inside = {}
         for e in plan.get("inside") or []:
             inside.setdefault(e["op_id"], []).append(e)
@@ -1031,6 +1033,14 @@ class PTable(EngineBase):
                                 "pid %d was yielded again" % pid)
                     if lst is not None and pid in lst:
                         del st["flagged"][pid]
+                # entries skipped because the process vanished while
+                # iterating must be dropped from the cache
+                if lst is not None:
+                    for pid in lst:
+                        if pid not in now_ids and pid in \
+                                st["all_yielded_ids"]:
+                            st["skipped"][pid] = list(
+                                st["all_yielded_ids"][pid])
                 st["last_complete"] = (k.version, now_ids, lst or {})
             elif mode != "complete" or overlapping:
                 if overlapping:
@@ -1044,6 +1054,14 @@ class PTable(EngineBase):
                                     "object flagged recycled for pid %d was "
                                     "yielded again" % pid)
             if not overlapping:
+                for pid, obj in now_ids.items():
+                    if any(obj is o for o in st["skipped"].get(pid, ())) \
+                            and pid not in st["flagged"]:
+                        self._V(st, "C04.dropped", ["vanished_while_"
+                                                    "iterating"],
+                                "process_iter", "pid %d vanished during an "
+                                "earlier iteration (it was skipped) but its "
+                                "old object is yielded again" % pid)
                 for pid, obj in now_ids.items():
                     if id(obj) in st["pre_clear"]:
                         self._V(st, "C04.cache_clear", [], "process_iter",
@@ -1126,6 +1144,25 @@ class PTable(EngineBase):
         if kind == "children":
             got = [p.pid for p in out[1]]
             if not moving:
+                # every returned object must stand for the process that owns
+                # that PID now (not for a previous owner of the PID)
+                from .. import seams as _seams
+                saved = _seams.State.kernel
+                _seams.State.kernel = k.view()
+                try:
+                    for c_ in out[1]:
+                        try:
+                            fresh = psutil.Process(c_.pid)
+                            same = (c_ == fresh)
+                        except psutil.Error:
+                            continue
+                        if not same and c_.pid in pre:
+                            self._V(st, "C05.children_exact", tags + [
+                                "stale_object"], api, "%s returned an object "
+                                "for pid %d that is not the process owning "
+                                "that PID now" % (api, c_.pid))
+                finally:
+                    _seams.State.kernel = saved
                 want = self._ref_children(pre, h.pid, my_start, op["rec"])
                 if sorted(got) != sorted(want):
                     t = list(tags)
